@@ -213,7 +213,7 @@ impl Disc {
 #[derive(Clone, Debug, PartialEq, Eq)]
 pub enum StoreCall {
     Find { ids: Option<Vec<Vec<u8>>>, rp_id: String, returned: Result<Vec<Vec<u8>>, u8> },
-    Save { cred_id: Vec<u8>, cred_rp: String, rp_arg: String, user_id: Vec<u8>, rk: bool, up: bool, uv: bool, result: Result<(), u8> },
+    Save { cred_id: Vec<u8>, cred_rp: String, rp_arg: String, user_id: Vec<u8>, rk: bool, up: bool, uv: bool, result: Result<(), u8>, labels: (Option<String>, Option<String>, Option<String>) },
     Update { cred_id: Vec<u8>, counter: Option<u32>, result: Result<(), u8> },
     Info,
 }
@@ -241,6 +241,8 @@ pub struct RefStoreInner {
     pub version: u64,
     /// answer a lookup that matches nothing with Ok(vec![]) instead of NoCredentials (both are within the contract)
     pub empty_ok: bool,
+    /// injected fault byte 0 is returned as Ctap1(Success) instead of what the byte decodes to
+    pub zero_as_ctap1_success: bool,
 }
 
 /// Reference credential store with the documented contract semantics:
@@ -250,7 +252,7 @@ pub struct RefStore(pub Arc<Mutex<RefStoreInner>>);
 
 impl RefStore {
     pub fn new(disc: Disc) -> Self {
-        RefStore(Arc::new(Mutex::new(RefStoreInner { creds: vec![], log: vec![], disc, faults: BTreeMap::new(), fallible_calls: 0, yields: 0, version: 0, empty_ok: false })))
+        RefStore(Arc::new(Mutex::new(RefStoreInner { creds: vec![], log: vec![], disc, faults: BTreeMap::new(), fallible_calls: 0, yields: 0, version: 0, empty_ok: false, zero_as_ctap1_success: false })))
     }
     pub fn with(disc: Disc, creds: Vec<Passkey>) -> Self {
         let s = Self::new(disc);
@@ -296,6 +298,23 @@ impl RefStore {
     fn yields(&self) -> usize {
         self.0.lock().unwrap().yields
     }
+    /// the status value an injected fault byte stands for: a byte decodes to one value, but 0 is also the byte of the
+    /// CTAP1 "success" status, which a store can return as an error value too
+    fn status(&self, b: u8) -> StatusCode {
+        let zero = self.0.lock().unwrap().zero_as_ctap1_success;
+        status_of(b, zero)
+    }
+    pub fn set_zero_as_ctap1_success(&self, on: bool) {
+        self.0.lock().unwrap().zero_as_ctap1_success = on;
+    }
+}
+
+fn status_of(b: u8, zero_as_ctap1_success: bool) -> StatusCode {
+    if b == 0 && zero_as_ctap1_success {
+        StatusCode::Ctap1(passkey_types::ctap2::U2FError::Success)
+    } else {
+        StatusCode::from(b)
+    }
 }
 
 /// the contract semantics of find_credentials, as a pure function
@@ -312,7 +331,7 @@ impl CredentialStore for RefStore {
         let idv: Option<Vec<Vec<u8>>> = ids.map(|l| l.iter().map(|d| d.id.to_vec()).collect());
         if let Some(b) = self.fault() {
             self.0.lock().unwrap().log.push(StoreCall::Find { ids: idv, rp_id: rp_id.to_string(), returned: Err(b) });
-            return Err(StatusCode::from(b));
+            return Err(self.status(b));
         }
         let mut g = self.0.lock().unwrap();
         let found: Vec<Passkey> = contract_find(&g.creds, idv.as_deref(), rp_id).into_iter().cloned().collect();
@@ -338,9 +357,12 @@ impl CredentialStore for RefStore {
             up: options.up,
             uv: options.uv,
             result: fault.map_or(Ok(()), Err),
+            labels: (user.name.clone(), user.display_name.clone(), rp.name.clone()),
         });
         if let Some(b) = fault {
-            return Err(StatusCode::from(b));
+            let zero = g.zero_as_ctap1_success;
+            drop(g);
+            return Err(status_of(b, zero));
         }
         g.version += 1;
         // a record with the same (RP ID, credential id) is replaced, like in a keyed store
@@ -355,7 +377,9 @@ impl CredentialStore for RefStore {
         let mut g = self.0.lock().unwrap();
         g.log.push(StoreCall::Update { cred_id: cred.credential_id.to_vec(), counter: cred.counter, result: fault.map_or(Ok(()), Err) });
         if let Some(b) = fault {
-            return Err(StatusCode::from(b));
+            let zero = g.zero_as_ctap1_success;
+            drop(g);
+            return Err(status_of(b, zero));
         }
         g.version += 1;
         if let Some(slot) = g.creds.iter_mut().find(|c| c.credential_id == cred.credential_id) {
